@@ -19,12 +19,16 @@
  *          `now' (clock owned through time()), and DUE in the past
  *   dump:  --opt limit=N --opt kind=DURATION|DTEND --opt cmd=TEXT prints the
  *          VTODO echsd hands to echsx for that input (used by c14_rt.py)
+ *   align: the limit line of the event placed on the chunk boundary (+-3 bytes) of each of the four readers of
+ *          the chain (echsq 32768, echsd socket 4096, echsd queue file 65536, echsx 4096), see enum_align();
+ *          win=N (default 3, at most 30): the window of placements around the boundary
  *   maxsec=N (default 180) grid=0|1 (default 1) */
 #include "vdrv.h"
 #include "c14_hx.h"
 #include <fcntl.h>
 #include <ctype.h>
 #include <inttypes.h>
+#include <stddef.h>
 
 /* ---------------------------------------------------------------- oracle side */
 static const long GRID[] = {
@@ -326,8 +330,21 @@ run_echsx(int slot, const char *req, time_t now)
 	int jfd = memfile("j"), lfd = open("/dev/null", O_WRONLY);
 	ssize_t n;
 
+	/* echsx reports into a mapping of this run alone: an echsx left behind by a worker the supervisor gave up on
+	 * (machine under load) must not be able to count into the results of a later run */
+	struct hx_xres *r = mmap(NULL, sizeof(*r), PROT_READ | PROT_WRITE, MAP_SHARED | MAP_ANONYMOUS, -1, 0);
+
+	vd_beat();
 	memset(&S->x[slot], 0, sizeof(S->x[slot]));
-	S->xst[slot] = hxx_run(req, strlen(req), now, &S->x[slot], jfd, lfd);
+	if (r == MAP_FAILED) {
+		perror("mmap");
+		_exit(2);
+	}
+	memset(r, 0, sizeof(*r));
+	S->xst[slot] = hxx_run(req, strlen(req), now, r, jfd, lfd);
+	S->x[slot] = *r;
+	munmap(r, sizeof(*r));
+	vd_beat();
 	S->journal[slot][0] = '\0';
 	if ((n = pread(jfd, S->journal[slot], sizeof(S->journal[slot]) - 1, 0)) >= 0) {
 		S->journal[slot][n] = '\0';
@@ -814,6 +831,612 @@ enum_dst(void)
 	}
 }
 
+/* ---------------------------------------------------------------- align: the limit line on a chunk boundary of each reader */
+/* The four readers of the chain take their input in chunks (echsq add_fd(): 32768 bytes per read of the user file; echsd
+ * sock_data_cb(): 4096 per recv; echsd _inject_file(): 65536 per read of a queue file; echsx main(): 4096 per read of
+ * stdin) and push each chunk into the pull parser.  Here the text a reader gets is laid out so that the line feed of the
+ * limit line (DURATION / DTEND / DUE) of the event c14-limit sits at chunk boundary + delta, delta = -win..+win (0: the LF is
+ * the first byte of the next chunk; with CRLF line ends the CR is then the last byte of the chunk before), and the limit
+ * is followed through the rest of the chain: what echsx arms must be the limit.
+ *  leg q   user file of N filler events + the event, read by echsq (32768), LF and CRLF line ends
+ *  leg d   echsq's text for such a file handed to echsd in pieces of 4096 bytes the way sock_data_cb() does
+ *  leg r   a queue file as echsd's chkpnt1() writes it (one event checkpointed by the real code, replicated by the
+ *          driver with other UIDs) loaded by _inject_file() (65536)
+ *  leg x   a stream of execution requests as echsd writes them (the request the real chain writes for the event, replicated
+ *          by the driver under other UIDs and without limit), read by one echsx (4096)
+ *  leg req a single execution request whose recipients (ATTENDEE lines) come before the limit, limit as DUE and as
+ *          DURATION, LF and CRLF line ends (4096)
+ * (no line may be longer than the parser's 1 KiB line limit, so the padding is made of events / requests / lines)
+ * Placement is by padding the command (SUMMARY:true xxx...) of the event; where the text is produced by real code (legs d, r,
+ * x) the offset is measured on a first run and the placement verified on the text of the case itself. */
+#define AL_BIG	(160 * 1024)
+#define AL_UID	"c14-limit"
+struct al_s {
+	int stage;
+	int ntasks;
+	int sel;
+	long long dur_ms;
+	long vlen;
+	long qlen;
+	long flen;
+	char args[256];
+	char vtodo[16384];
+	char q_text[AL_BIG];
+	char qfile[AL_BIG];
+};
+static struct al_s *A;
+static char al_dir[64];
+
+enum {AL_WHOLE, AL_CHUNKED, AL_RELOAD};
+
+/* stages 1-3 for the align mode; echsq in a process of its own, its text collected through the pipe */
+static void
+al_child(const char *text, size_t len, int how, int chk)
+{
+	A->stage = 1;
+	if (how != AL_RELOAD) {
+		int src = memfile("src"), p[2];
+		ssize_t n;
+		size_t tot = 0;
+		pid_t q;
+		int st = 0;
+
+		if (write(src, text, len) != (ssize_t)len || lseek(src, 0, SEEK_SET) < 0 || pipe(p) < 0) {
+			_exit(81);
+		}
+		if ((q = fork()) < 0) {
+			_exit(81);
+		} else if (q == 0) {
+			close(p[0]);
+			hxq_add(p[1], src);
+			_exit(0);
+		}
+		close(p[1]);
+		while (tot < sizeof(A->q_text) - 1 && (n = read(p[0], A->q_text + tot, sizeof(A->q_text) - 1 - tot)) > 0) {
+			tot += n;
+		}
+		A->q_text[tot] = '\0';
+		A->qlen = tot;
+		close(p[0]);
+		while (waitpid(q, &st, 0) < 0 && errno == EINTR);
+		if (st) {
+			_exit(84);
+		}
+	}
+	A->stage = 2;
+	if (hxd_setup() < 0) {
+		_exit(82);
+	}
+	switch (how) {
+	case AL_WHOLE:
+		A->ntasks = hxd_submit(A->q_text, A->qlen);
+		break;
+	case AL_CHUNKED:
+		A->ntasks = hxd_submit_chunked(A->q_text, A->qlen, 4096U);
+		break;
+	default:
+		A->ntasks = hxd_reload(al_dir, text, len);
+		break;
+	}
+	if (chk) {
+		A->flen = hxd_chkpnt(al_dir, A->qfile, sizeof(A->qfile));
+		_exit(0);
+	}
+	A->stage = 3;
+	if ((A->sel = hxd_select(AL_UID)) == 0) {
+		A->dur_ms = hxd_dur_ms();
+		A->vlen = hxd_fire(A->vtodo, sizeof(A->vtodo), A->args, sizeof(A->args));
+	}
+	A->stage = 4;
+	_exit(0);
+}
+
+static int
+al_run(const char *text, size_t len, int how, int chk)
+{
+	pid_t p;
+	int st = 0;
+
+	memset(A, 0, offsetof(struct al_s, q_text));
+	A->q_text[0] = A->qfile[0] = '\0';
+	A->vlen = A->flen = -1;
+	fflush(stdout);
+	if ((p = fork()) == 0) {
+		al_child(text, len, how, chk);
+	}
+	while (waitpid(p, &st, 0) < 0 && errno == EINTR);
+	vd_beat();
+	return st;
+}
+
+static size_t
+al_pad(char *buf, long pad)
+{
+	/* the command: true x, then PAD more x */
+	size_t o = (size_t)sprintf(buf, "SUMMARY:true x");
+	memset(buf + o, 'x', pad);
+	buf[o + pad] = '\0';
+	return o + pad;
+}
+
+/* user file: NFILL filler events, then the event; *LF receives the offset of the line feed of its limit line */
+static size_t
+al_user(char *buf, int nfill, long pad, const char *kind, const char *val, const char *eol, long *lf)
+{
+	char sta[32];
+	size_t o;
+
+	fmt_utc(sta, sizeof(sta), START_EPOCH);
+	o = (size_t)sprintf(buf, "BEGIN:VCALENDAR%sVERSION:2.0%s", eol, eol);
+	for (int i = 0; i < nfill; i++) {
+		o += (size_t)sprintf(buf + o, "BEGIN:VEVENT%sUID:c14-fill-%04d%sSUMMARY:true%sDTSTART:%s%sDURATION:PT30M%sEND:VEVENT%s",
+				     eol, i, eol, eol, sta, eol, eol, eol);
+	}
+	o += (size_t)sprintf(buf + o, "BEGIN:VEVENT%sUID:" AL_UID "%s", eol, eol);
+	o += al_pad(buf + o, pad);
+	o += (size_t)sprintf(buf + o, "%sDTSTART:%s%s%s:%s", eol, sta, eol, kind, val);
+	*lf = (long)(o + strlen(eol) - 1U);
+	o += (size_t)sprintf(buf + o, "%sLOCATION:/tmp%sEND:VEVENT%sEND:VCALENDAR%s", eol, eol, eol, eol);
+	return o;
+}
+
+/* execution request with NATT recipients listed before the limit line, the command padded; *LF receives the offset of the line feed of the limit line */
+static size_t
+al_req(char *buf, int natt, long pad, const char *eol, const char *kind, const char *val, long *lf)
+{
+	size_t o;
+
+	o = (size_t)sprintf(buf, "BEGIN:VCALENDAR%sVERSION:2.0%sBEGIN:VTODO%sUID:" AL_UID "%s", eol, eol, eol, eol);
+	o += al_pad(buf + o, pad);
+	o += (size_t)sprintf(buf + o, "%sX-ECHS-SETUID:%u%sX-ECHS-SHELL:/bin/sh%sLOCATION:/%sORGANIZER:echse%s",
+			     eol, (unsigned)geteuid(), eol, eol, eol, eol);
+	for (int i = 0; i < natt; i++) {
+		o += (size_t)sprintf(buf + o, "ATTENDEE:mailto:recipient-%03d@mail.example.com%s", i, eol);
+	}
+	o += (size_t)sprintf(buf + o, "%s:%s", kind, val);
+	*lf = (long)(o + strlen(eol) - 1U);
+	o += (size_t)sprintf(buf + o, "%sX-ECHS-UMASK:022%sX-ECHS-MAIL-RUN:0%sX-ECHS-MAIL-OUT:0%sX-ECHS-MAIL-ERR:0%sEND:VTODO%sEND:VCALENDAR%s",
+			     eol, eol, eol, eol, eol, eol, eol);
+	return o;
+}
+
+/* offset of the line feed that ends the first line NAME:... after the line UID:c14-limit in TEXT, -1 if there is none */
+static long
+al_lf(const char *text, const char *name)
+{
+	const char *u = strstr(text, "\nUID:" AL_UID "\n"), *p, *e;
+	char pat[40];
+
+	snprintf(pat, sizeof(pat), "\n%s:", name);
+	if (u == NULL || (p = strstr(u + 1, pat)) == NULL || (e = strchr(p + 1, '\n')) == NULL) {
+		return -1;
+	}
+	return (long)(e - text);
+}
+
+static const char*
+al_pos(int delta)
+{
+	return delta == 0 ? "lf-leads-chunk" : delta > 0 ? "cut-in-line" : "cut-after-line";
+}
+
+/* everything behind the reader under test: the event must be held, fired, and echsx must arm L */
+static void
+al_judge(const char *leg, const char *kind, const char *eol, int delta, long L, int st, int want_tasks, time_t now)
+{
+	const char *en = eol[0] == '\r' ? "crlf" : "lf", *pc = al_pos(delta);
+	char tmp[128], t2[128], t3[128];
+
+	if (st) {
+		char sig[200];
+		snprintf(sig, sizeof(sig), "align/chain-died/%s/%s/%s/%s", leg, kind, en, pc);
+		vd_viol(sig, "stage %d of the chain died, wait status %#x", A->stage, st);
+		return;
+	}
+	if (A->ntasks != want_tasks) {
+		char sig[200];
+		snprintf(sig, sizeof(sig), "align/echsd-count/%s/%s/%s/%s", leg, kind, en, pc);
+		vd_viol(sig, "the daemon holds %d tasks, the text it was given has %d events", A->ntasks, want_tasks);
+	}
+	if (A->sel < 0) {
+		char sig[200];
+		snprintf(sig, sizeof(sig), "align/no-target/%s/%s/%s/%s", leg, kind, en, pc);
+		vd_viol(sig, "the daemon does not hold the event " AL_UID " (%d tasks held)", A->ntasks);
+		return;
+	}
+	if (A->vlen < 0) {
+		char sig[200];
+		snprintf(sig, sizeof(sig), "align/echsd-nospawn/%s/%s/%s/%s", leg, kind, en, pc);
+		vd_viol(sig, "no echsx spawned for the event (daemon holds %lld ms)", A->dur_ms);
+		return;
+	}
+	st = run_echsx(0, A->vtodo, now);
+	if (st & 0x7f) {
+		vd_viol("align/echsx-died", "echsx killed by signal %d on the request", st & 0x7f);
+	} else if (S->x[0].n_spawn != 1) {
+		char sig[200];
+		snprintf(sig, sizeof(sig), "align/echsx-norun/%s/%s/%s/%s", leg, kind, en, pc);
+		vd_viol(sig, "echsx started %d jobs; journal: %s", S->x[0].n_spawn, S->journal[0]);
+	} else if (S->x[0].n_alarm == 0 || S->x[0].alarm_arg != (unsigned long)L) {
+		char sig[200];
+		snprintf(sig, sizeof(sig), "align/armed-%s/%s/%s/%s/%s", S->x[0].n_alarm ? "value" : "none", leg, kind, en, pc);
+		vd_viol(sig, "echsx arms %s%u s, the limit is %ld s; echsq sent `%s', echsd holds %lld ms, request says `%s' (line before: `%s')",
+			S->x[0].n_alarm ? "" : "no timer, last alarm argument ", S->x[0].alarm_arg, L,
+			A->qlen ? (al_lf(A->q_text, "DURATION") >= 0 ? (prop(strstr(A->q_text, "\nUID:" AL_UID "\n") + 1, "DURATION", tmp, sizeof(tmp)) ? tmp : "?") : "no DURATION line") : "(not involved)",
+			A->dur_ms, prop(A->vtodo, "DURATION", t2, sizeof(t2)) ? t2 : "no DURATION line",
+			prop(A->vtodo, "LOCATION", t3, sizeof(t3)) ? t3 : "?");
+	}
+	vd_nontrivial();
+	vd_count("echsx_runs", 1);
+}
+
+static void
+al_flat(void)
+{
+	for (char *p = vd_sh->desc; *p; p++) {
+		if (*p == '\n') {
+			*p = '|';
+		} else if (*p == '\r') {
+			*p = '~';
+		}
+	}
+}
+
+static const struct {
+	long L;
+	const char *dur;
+} AL_L[] = {{7, "PT7S"}, {3661, "PT1H1M1S"}};
+#define AL_NL	(sizeof(AL_L) / sizeof(*AL_L))
+static const char *const AL_EOL[2] = {"\n", "\r\n"};
+
+static void
+al_val(char *val, size_t vz, const char *kind, size_t li)
+{
+	if (!strcmp(kind, "DTEND")) {
+		fmt_utc(val, vz, START_EPOCH + AL_L[li].L);
+	} else {
+		snprintf(val, vz, "%s", AL_L[li].dur);
+	}
+}
+
+static void
+enum_align(void)
+{
+	static const char *const KIND[2] = {"DURATION", "DTEND"};
+	static char text[AL_BIG], ev[4096], fill[4096];
+	char val[64];
+	long lf;
+	const int win = vd_opt_l("win", 3) < 0 ? 0 : vd_opt_l("win", 3) > 30 ? 30 : (int)vd_opt_l("win", 3);
+
+	A = mmap(NULL, sizeof(*A), PROT_READ | PROT_WRITE, MAP_SHARED | MAP_ANONYMOUS, -1, 0);
+	if (A == MAP_FAILED) {
+		perror("mmap");
+		_exit(2);
+	}
+	/* --- leg x: echsx reads a stream of requests as echsd writes them (4096) */
+	for (size_t ki = 0; ki < 2; ki++) {
+		for (size_t li = 0; li < AL_NL; li++) {
+			static char hdb[1024], ftb[1024];
+			size_t hz = 0, ez = 0, fz = 0;
+			int calib = 0;
+
+			for (int delta = -win; delta <= win; delta++) {
+				const long B = 4096;
+				long pad, lf0;
+				size_t n, o, fo = 0;
+				int st, nf;
+				char *p, *q, *u, *d, *de;
+
+				if (!vd_next()) {
+					continue;
+				}
+				al_val(val, sizeof(val), KIND[ki], li);
+				vd_shape("align/x/%s/lf/%s", KIND[ki], al_pos(delta));
+				if (!calib) {
+					/* the request the real chain writes for the event */
+					calib = -1;
+					n = al_user(text, 0, 0, KIND[ki], val, "\n", &lf);
+					if (!al_run(text, n, AL_WHOLE, 0) && A->sel == 0 && A->vlen > 0 &&
+					    (p = strstr(A->vtodo, "BEGIN:VTODO\n")) != NULL && (q = strstr(p, "END:VTODO\n")) != NULL &&
+					    strstr(p, "\nSUMMARY:true x\n") != NULL && (size_t)(q + 10 - p) < sizeof(ev)) {
+						hz = (size_t)(p - A->vtodo), ez = (size_t)(q + 10 - p), fz = strlen(q + 10);
+						if (hz < sizeof(hdb) && fz < sizeof(ftb)) {
+							memcpy(hdb, A->vtodo, hz), hdb[hz] = '\0';
+							memcpy(ev, p, ez), ev[ez] = '\0';
+							memcpy(ftb, q + 10, fz + 1);
+							calib = 1;
+						}
+					}
+				}
+				u = strstr(ev, "\nUID:" AL_UID "\n"), d = strstr(ev, "\nDURATION:"), de = d ? strchr(d + 1, '\n') : NULL;
+				if (calib < 0 || u == NULL || de == NULL || u > d) {
+					vd_desc("leg x: request written by the chain for a single event with %s:%s", KIND[ki], val);
+					vd_viol("align/unplaced/x", "the chain gave no usable request (no VTODO, no DURATION line): %.300s", A->vtodo);
+					continue;
+				}
+				/* a filler is the request under another UID and without a limit */
+				fo += (size_t)sprintf(fill + fo, "%.*s\nUID:c14-fill-0000\n", (int)(u - ev), ev);
+				fo += (size_t)sprintf(fill + fo, "%.*s%s", (int)(d - (u + 6 + strlen(AL_UID))), u + 6 + strlen(AL_UID), de);
+				lf0 = (long)hz + (long)(de - ev);
+				nf = (int)((B - win - lf0) / (long)fo);
+				pad = B + delta - lf0 - nf * (long)fo;
+				memcpy(text, hdb, hz), o = hz;
+				for (int i = 0; i < nf; i++) {
+					char num[8];
+					memcpy(text + o, fill, fo);
+					snprintf(num, sizeof(num), "%04d", i);
+					memcpy(strstr(text + o, "UID:c14-fill-") + 13, num, 4);
+					o += fo;
+				}
+				p = strstr(ev, "\nSUMMARY:true x\n") + 15;
+				memcpy(text + o, ev, (size_t)(p - ev)), o += (size_t)(p - ev);
+				memset(text + o, 'x', pad), o += pad;
+				memcpy(text + o, p, ez - (size_t)(p - ev)), o += ez - (size_t)(p - ev);
+				memcpy(text + o, ftb, fz + 1), o += fz;
+				vd_desc("leg x: limit %ld s as %s:%s; the request the chain (echsq, echsd) writes for BEGIN:VEVENT|UID:" AL_UID "|SUMMARY:true x|DTSTART:20310307T100000Z|%s:%s|LOCATION:/tmp|END:VEVENT, "
+					"preceded in the same stream by %d copies of its VTODO under UIDs c14-fill-NNNN without the DURATION line, its own SUMMARY padded by %ld x: the line feed of its "
+					"DURATION line is byte %ld (0-based) of echsx's stdin, read in chunks of %ld; the request: %s%s%s", AL_L[li].L, KIND[ki], val, KIND[ki], val, nf, pad, B + delta, B, hdb, ev, ftb);
+				al_flat();
+				if (pad < 0 || al_lf(text, "DURATION") != B + delta) {
+					vd_viol("align/unplaced/x", "driver misplaced the limit line (%ld)", al_lf(text, "DURATION"));
+					continue;
+				}
+				st = run_echsx(0, text, 0);
+				if (st & 0x7f) {
+					vd_viol("align/echsx-died", "echsx killed by signal %d on the request stream", st & 0x7f);
+				} else if (S->x[0].n_spawn != nf + 1) {
+					char sig[200];
+					snprintf(sig, sizeof(sig), "align/echsx-norun/x/%s/lf/%s", KIND[ki], al_pos(delta));
+					vd_viol(sig, "echsx started %d jobs for %d requests", S->x[0].n_spawn, nf + 1);
+				} else if (S->x[0].n_alarm != 1 || S->x[0].alarm_arg != (unsigned long)AL_L[li].L) {
+					char sig[200];
+					snprintf(sig, sizeof(sig), "align/armed-%s/x/%s/lf/%s", S->x[0].n_alarm ? "value" : "none", KIND[ki], al_pos(delta));
+					vd_viol(sig, "echsx arms a timer %d times, last for %u s; one request of the stream has a limit, %ld s", S->x[0].n_alarm, S->x[0].alarm_arg, AL_L[li].L);
+				}
+				vd_nontrivial();
+				vd_count("echsx_runs", 1);
+				vd_sample("leg x, %s:%s, %d requests before, LF of the DURATION line at byte %ld of %zu: echsx arms %u s", KIND[ki], val, nf, B + delta, o, S->x[0].alarm_arg);
+			}
+		}
+	}
+	/* --- leg req: a single request with the recipients listed before the limit, limit as DUE / DURATION, both line ends (4096) */
+	for (size_t ki = 0; ki < 2; ki++) {
+		static const char *const RK[2] = {"DUE", "DURATION"};
+		for (size_t ei = 0; ei < 2; ei++) {
+			for (size_t li = 0; li < AL_NL; li++) {
+				for (int delta = -win; delta <= win; delta++) {
+					const long B = 4096;
+					const char *eol = AL_EOL[ei];
+					const long long now = NOWS[0].now;
+					size_t o;
+					long pad;
+					int st, natt;
+
+					if (!vd_next()) {
+						continue;
+					}
+					if (ki == 0) {
+						fmt_utc(val, sizeof(val), now + AL_L[li].L);
+					} else {
+						snprintf(val, sizeof(val), "%s", AL_L[li].dur);
+					}
+					(void)al_req(text, 0, 0, eol, RK[ki], val, &lf);
+					pad = lf;
+					(void)al_req(text, 1, 0, eol, RK[ki], val, &lf);
+					natt = (int)((B - win - pad) / (lf - pad));
+					pad = B + delta - pad - natt * (lf - pad);
+					o = al_req(text, natt, pad, eol, RK[ki], val, &lf);
+					vd_desc("leg req: execution request BEGIN:VCALENDAR|VERSION:2.0|BEGIN:VTODO|UID:" AL_UID "|SUMMARY:true x{%ld more x}|X-ECHS-SETUID:%u|"
+						"X-ECHS-SHELL:/bin/sh|LOCATION:/|ORGANIZER:echse|%d lines ATTENDEE:mailto:recipient-NNN@mail.example.com (NNN = 000...)|%s:%s|X-ECHS-UMASK:022|X-ECHS-MAIL-RUN:0|X-ECHS-MAIL-OUT:0|X-ECHS-MAIL-ERR:0|END:VTODO|END:VCALENDAR| "
+						"with %s line ends, now = 20300615T120000Z, limit %ld s; the line feed of the %s line is byte %ld (0-based), echsx reads its stdin in chunks of %ld",
+						pad, (unsigned)geteuid(), natt, RK[ki], val, ei ? "CRLF" : "LF", AL_L[li].L, RK[ki], B + delta, B);
+					vd_shape("align/req/%s/%s/%s", RK[ki], ei ? "crlf" : "lf", al_pos(delta));
+					if (pad < 0 || lf != B + delta || text[B + delta] != '\n' || (size_t)(B + delta) >= o) {
+						vd_viol("align/unplaced/req", "driver misplaced the limit line");
+						continue;
+					}
+					st = run_echsx(0, text, (time_t)now);
+					if (st & 0x7f) {
+						vd_viol("align/echsx-died", "echsx killed by signal %d on the request", st & 0x7f);
+					} else if (S->x[0].n_spawn != 1) {
+						char sig[200];
+						snprintf(sig, sizeof(sig), "align/echsx-norun/req/%s/%s/%s", RK[ki], ei ? "crlf" : "lf", al_pos(delta));
+						vd_viol(sig, "echsx started %d jobs; journal: %s", S->x[0].n_spawn, S->journal[0]);
+					} else if (S->x[0].n_alarm == 0 || S->x[0].alarm_arg != (unsigned long)AL_L[li].L) {
+						char sig[200];
+						snprintf(sig, sizeof(sig), "align/armed-%s/req/%s/%s/%s", S->x[0].n_alarm ? "value" : "none", RK[ki], ei ? "crlf" : "lf", al_pos(delta));
+						vd_viol(sig, "echsx arms %s%u s, the limit is %ld s", S->x[0].n_alarm ? "" : "no timer, last alarm argument ", S->x[0].alarm_arg, AL_L[li].L);
+					}
+					vd_nontrivial();
+					vd_count("echsx_runs", 1);
+					vd_sample("leg req, %s:%s, %s, LF at byte %ld: echsx arms %u s", RK[ki], val, ei ? "CRLF" : "LF", B + delta, S->x[0].alarm_arg);
+				}
+			}
+		}
+	}
+	/* --- leg d: echsd takes echsq's text in pieces of 4096 bytes */
+	for (size_t ki = 0; ki < 2; ki++) {
+		for (size_t li = 0; li < AL_NL; li++) {
+			long o0 = -2, o1 = -2;
+			for (int delta = -win; delta <= win; delta++) {
+				const long B = 4096;
+				long pad, got, s;
+				size_t n;
+				int st, nf;
+
+				if (!vd_next()) {
+					continue;
+				}
+				al_val(val, sizeof(val), KIND[ki], li);
+				if (o0 == -2) {
+					/* where the event's DURATION line ends in echsq's text without and with one filler event before it */
+					n = al_user(text, 0, 0, KIND[ki], val, "\n", &lf);
+					o0 = al_run(text, n, AL_WHOLE, 0) ? -1 : al_lf(A->q_text, "DURATION");
+					n = al_user(text, 1, 0, KIND[ki], val, "\n", &lf);
+					o1 = al_run(text, n, AL_WHOLE, 0) ? -1 : al_lf(A->q_text, "DURATION");
+				}
+				s = o1 - o0;
+				nf = o0 >= 0 && s > 0 ? (int)((B - win - o0) / s) : 0;
+				pad = B + delta - o0 - nf * s;
+				vd_desc("leg d: limit %ld s as %s:%s; user file with %d filler events (BEGIN:VEVENT|UID:c14-fill-NNNN|SUMMARY:true|DTSTART:20310307T100000Z|DURATION:PT30M|END:VEVENT) "
+					"followed by BEGIN:VEVENT|UID:" AL_UID "|SUMMARY:true x{%ld more x}|DTSTART:20310307T100000Z|%s:%s|LOCATION:/tmp|END:VEVENT through echsq; "
+					"in echsq's text the line feed of the event's DURATION line is byte %ld (0-based); echsd is given that text in pieces of %ld bytes "
+					"(feed_cmd + cmd_ical per piece, as sock_data_cb does)", AL_L[li].L, KIND[ki], val, nf, pad, KIND[ki], val, B + delta, B);
+				vd_shape("align/d/%s/lf/%s", KIND[ki], al_pos(delta));
+				if (o0 < 0 || o1 < 0 || s <= 0 || pad < 0) {
+					vd_viol("align/unplaced/d", "echsq's text for the unpadded file has no DURATION line for the event (offsets %ld, %ld)", o0, o1);
+					continue;
+				}
+				n = al_user(text, nf, pad, KIND[ki], val, "\n", &lf);
+				st = al_run(text, n, AL_CHUNKED, 0);
+				if (!st && (got = al_lf(A->q_text, "DURATION")) != B + delta) {
+					vd_viol("align/unplaced/d", "DURATION line of the event ends at byte %ld of echsq's text, meant %ld", got, B + delta);
+					continue;
+				}
+				al_judge("d", KIND[ki], "\n", delta, AL_L[li].L, st, nf + 1, 0);
+				vd_sample("leg d, %s:%s, %d fillers, LF at byte %ld of %ld: echsd holds %lld ms, echsx arms %u s", KIND[ki], val, nf, B + delta, A->qlen, A->dur_ms, S->x[0].alarm_arg);
+			}
+		}
+	}
+	/* --- leg q: echsq reads the user file (32768) */
+	for (size_t ki = 0; ki < 2; ki++) {
+		for (size_t ei = 0; ei < 2; ei++) {
+			for (size_t li = 0; li < AL_NL; li++) {
+				for (int delta = -win; delta <= win; delta++) {
+					const long B = 32768;
+					const char *eol = AL_EOL[ei];
+					long lf0, lf1, s, pad;
+					size_t n;
+					int st, nf;
+
+					if (!vd_next()) {
+						continue;
+					}
+					al_val(val, sizeof(val), KIND[ki], li);
+					(void)al_user(text, 0, 0, KIND[ki], val, eol, &lf0);
+					(void)al_user(text, 1, 0, KIND[ki], val, eol, &lf1);
+					s = lf1 - lf0;
+					nf = (int)((B - win - lf0) / s);
+					pad = B + delta - lf0 - nf * s;
+					n = al_user(text, nf, pad, KIND[ki], val, eol, &lf);
+					vd_desc("leg q: limit %ld s as %s:%s; user file with %s line ends: %d filler events (BEGIN:VEVENT|UID:c14-fill-NNNN|SUMMARY:true|DTSTART:20310307T100000Z|DURATION:PT30M|END:VEVENT) "
+						"followed by BEGIN:VEVENT|UID:" AL_UID "|SUMMARY:true x{%ld more x}|DTSTART:20310307T100000Z|%s:%s|LOCATION:/tmp|END:VEVENT; the line feed of the %s line is byte %ld "
+						"(0-based) of the file, echsq reads it in chunks of %ld", AL_L[li].L, KIND[ki], val, ei ? "CRLF" : "LF", nf, pad, KIND[ki], val, KIND[ki], B + delta, B);
+					vd_shape("align/q/%s/%s/%s", KIND[ki], ei ? "crlf" : "lf", al_pos(delta));
+					if (lf != B + delta || text[lf] != '\n' || pad < 0) {
+						vd_viol("align/unplaced/q", "driver misplaced the limit line (%ld)", lf);
+						continue;
+					}
+					st = al_run(text, n, AL_WHOLE, 0);
+					al_judge("q", KIND[ki], eol, delta, AL_L[li].L, st, nf + 1, 0);
+					vd_sample("leg q, %s:%s, %s, %d fillers, LF at byte %ld of %zu: echsd holds %lld ms, echsx arms %u s", KIND[ki], val, ei ? "CRLF" : "LF", nf, B + delta, n, A->dur_ms, S->x[0].alarm_arg);
+				}
+			}
+		}
+	}
+	/* --- leg r: a starting echsd loads a queue file (65536) */
+	for (size_t li = 0; li < AL_NL; li++) {
+		char *hd = NULL, *ft = NULL;
+		size_t hz = 0, ez = 0, fz = 0;
+		int calib = 0;
+
+		for (int delta = -win; delta <= win; delta++) {
+			const long B = 65536;
+			long pad, lf0;
+			size_t n, o;
+			int st, nf;
+			char *p, *q;
+
+			if (!vd_next()) {
+				continue;
+			}
+			if (!al_dir[0]) {
+				strcpy(al_dir, "/tmp/c14q_XXXXXX");
+				if (mkdtemp(al_dir) == NULL) {
+					perror("mkdtemp");
+					_exit(2);
+				}
+			}
+			vd_shape("align/r/DURATION/lf/%s", al_pos(delta));
+			if (!calib) {
+				/* the queue file the real code writes for the one event */
+				calib = -1;
+				n = al_user(text, 0, 0, "DURATION", AL_L[li].dur, "\n", &lf);
+				if (!al_run(text, n, AL_WHOLE, 1) && A->flen > 0 &&
+				    (p = strstr(A->qfile, "BEGIN:VEVENT\n")) != NULL && (q = strstr(p, "END:VEVENT\n")) != NULL &&
+				    strstr(p, "\nUID:" AL_UID "\n") != NULL && strstr(p, "\nSUMMARY:true x\n") != NULL &&
+				    al_lf(A->qfile, "DURATION") >= 0 && (size_t)(q + 11 - p) < sizeof(ev)) {
+					static char hdb[1024], ftb[1024];
+					hz = (size_t)(p - A->qfile), ez = (size_t)(q + 11 - p), fz = strlen(q + 11);
+					if (hz < sizeof(hdb) && fz < sizeof(ftb)) {
+						memcpy(hdb, A->qfile, hz), hdb[hz] = '\0', hd = hdb;
+						memcpy(ev, p, ez), ev[ez] = '\0';
+						memcpy(ftb, q + 11, fz + 1), ft = ftb;
+						calib = 1;
+					}
+				}
+			}
+			if (calib < 0) {
+				vd_desc("leg r: checkpoint of a one-event queue");
+				vd_viol("align/unplaced/r", "chkpnt1() gave no usable queue file for the single event: %.300s", A->qfile);
+				continue;
+			}
+			/* a filler is the event as checkpointed under another UID and with another limit */
+			{
+				char *u = strstr(ev, "\nUID:" AL_UID "\n"), *d = strstr(ev, "\nDURATION:"), *de = d ? strchr(d + 1, '\n') : NULL;
+				size_t fo = 0;
+				if (u == NULL || de == NULL || u > d) {
+					vd_desc("leg r: checkpoint of a one-event queue");
+					vd_viol("align/unplaced/r", "unexpected layout of the checkpointed event: %.300s", ev);
+					continue;
+				}
+				fo += (size_t)sprintf(fill + fo, "%.*s\nUID:c14-fill-0000\n", (int)(u - ev), ev);
+				fo += (size_t)sprintf(fill + fo, "%.*s\nDURATION:PT30M%s", (int)(d - (u + 6 + strlen(AL_UID))), u + 6 + strlen(AL_UID), de);
+				lf0 = (long)hz + (long)(de - ev);
+				nf = (int)((B - win - lf0) / (long)fo);
+				pad = B + delta - lf0 - nf * (long)fo;
+				memcpy(text, hd, hz), o = hz;
+				for (int i = 0; i < nf; i++) {
+					char num[8];
+					memcpy(text + o, fill, fo);
+					snprintf(num, sizeof(num), "%04d", i);
+					memcpy(strstr(text + o, "UID:c14-fill-") + 13, num, 4);
+					o += fo;
+				}
+				/* the event itself, its command padded */
+				p = strstr(ev, "\nSUMMARY:true x\n") + 15;
+				memcpy(text + o, ev, (size_t)(p - ev)), o += (size_t)(p - ev);
+				memset(text + o, 'x', pad), o += pad;
+				memcpy(text + o, p, ez - (size_t)(p - ev)), o += ez - (size_t)(p - ev);
+				memcpy(text + o, ft, fz + 1), o += fz;
+				n = o;
+			}
+			vd_desc("leg r: limit %ld s as DURATION:%s; queue file = the file chkpnt1() writes for the event " AL_UID " (SUMMARY:true x, DTSTART:20310307T100000Z), with %d copies of "
+				"its VEVENT under UIDs c14-fill-NNNN and DURATION:PT30M put before it and its own SUMMARY padded by %ld x: the line feed of its DURATION line is byte %ld (0-based), "
+				"_inject_file() reads the file in chunks of %ld; checkpointed event: %s", AL_L[li].L, AL_L[li].dur, nf, pad, B + delta, B, ev);
+			al_flat();
+			if (al_lf(text, "DURATION") != B + delta || pad < 0) {
+				vd_viol("align/unplaced/r", "driver misplaced the limit line (%ld)", al_lf(text, "DURATION"));
+				continue;
+			}
+			st = al_run(text, n, AL_RELOAD, 0);
+			al_judge("r", "DURATION", "\n", delta, AL_L[li].L, st, nf + 1, 0);
+			vd_sample("leg r, DURATION:%s, %d fillers, LF at byte %ld of %zu: echsd holds %lld ms, echsx arms %u s", AL_L[li].dur, nf, B + delta, n, A->dur_ms, S->x[0].alarm_arg);
+		}
+	}
+	if (al_dir[0]) {
+		/* the daemon's journal of the fired runs is all that is left in there */
+		char fn[128];
+		snprintf(fn, sizeof(fn), "%s/echsj_%u.ics", al_dir, (unsigned)geteuid());
+		unlink(fn);
+		snprintf(fn, sizeof(fn), "%s/echsq_%u.ics", al_dir, (unsigned)geteuid());
+		unlink(fn);
+		snprintf(fn, sizeof(fn), "%s/.echsq_%u.ics", al_dir, (unsigned)geteuid());
+		unlink(fn);
+		rmdir(al_dir);
+	}
+}
+
 /* ---------------------------------------------------------------- dump (for the real-time runs) */
 static int
 dump(void)
@@ -853,6 +1476,8 @@ enumerate(void)
 
 	if (!strcmp(mode, "due")) {
 		enum_due();
+	} else if (!strcmp(mode, "align")) {
+		enum_align();
 	} else if (!strcmp(mode, "zones")) {
 		enum_zones();
 		enum_dst();
